@@ -117,7 +117,8 @@ def run_case(r, kind, counters, trace):
     def do_dispatch(cls):
         msg = cls()
         client = object()
-        seqnum = r.randint(1, 65535)
+        from mpgameserver import SeqNum
+        seqnum = SeqNum(r.randint(1, 65535))       # an object with identity (an int subclass, as the server passes it)
         args = (client, seqnum, msg) if kind == "server" else (seqnum, msg)
         calls.clear()
         name = cls.__name__
